@@ -1,21 +1,55 @@
 #!/venv/bin/python
-"""tools/seeded_recheck.py [ID_N ...]  -- re-run ./check <prop> quick against every stored seeded defect and update the
-verdict in its meta.json (the stored verdict may predate later strengthening of the checks)."""
-import json, os, subprocess, sys
+"""tools/seeded_recheck.py [-j N] [ID_N ...]  -- re-run ./check <prop> quick against every stored seeded defect and
+update the verdict in its meta.json (the stored verdict may predate later strengthening of the checks). Entries whose
+disposition starts with "rejected" are skipped. An inconclusive run (exit 2) is repeated once on its own."""
+import concurrent.futures
+import json
+import os
+import subprocess
+import sys
 HERE = os.path.dirname(os.path.dirname(os.path.abspath(__file__)))
-names = sys.argv[1:] or sorted(os.listdir(os.path.join(HERE, "seeded")))
-for name in names:
+args = sys.argv[1:]
+jobs = 1
+if args[:1] == ["-j"]:
+    jobs = int(args[1])
+    args = args[2:]
+names = args or sorted(os.listdir(os.path.join(HERE, "seeded")))
+
+
+def one(name):
     d = os.path.join(HERE, "seeded", name)
     mp = os.path.join(d, "meta.json")
     if not os.path.exists(mp):
-        continue
+        return name, None, ""
     m = json.load(open(mp))
     if m.get("disposition", "").startswith("rejected"):
-        print(f"{name}: {m['disposition'][:100]}")
-        continue
+        return name, "skip", m["disposition"][:100]
     prop = name.split("_")[0]
     r = subprocess.run([os.path.join(HERE, "tools", "mutant_run.sh"), os.path.join(d, "patch.diff"), prop, "quick"],
                        capture_output=True, text=True)
-    m["check_quick"] = {"rc": r.returncode, "summary": r.stdout.strip()[:600]}
+    return name, r.returncode, r.stdout.strip()
+
+
+again = []
+with concurrent.futures.ThreadPoolExecutor(jobs) as ex:
+    for name, rc, out in ex.map(one, names):
+        if rc is None:
+            continue
+        if rc == "skip":
+            print(f"{name}: {out}", flush=True)
+            continue
+        if rc != 1:
+            again.append(name)
+            continue
+        mp = os.path.join(HERE, "seeded", name, "meta.json")
+        m = json.load(open(mp))
+        m["check_quick"] = {"rc": rc, "summary": out[:600]}
+        json.dump(m, open(mp, "w"), indent=1)
+        print(f"{name}: rc={rc} {out[:160]}", flush=True)
+for name in again:
+    name, rc, out = one(name)
+    mp = os.path.join(HERE, "seeded", name, "meta.json")
+    m = json.load(open(mp))
+    m["check_quick"] = {"rc": rc, "summary": out[:600]}
     json.dump(m, open(mp, "w"), indent=1)
-    print(f"{name}: rc={r.returncode} {r.stdout.strip()[:160]}")
+    print(f"{name}: rc={rc} (second run) {out[:160]}", flush=True)
